@@ -124,7 +124,7 @@ func clientCases() []clientCase {
 }
 
 func runClientCase(t *testing.T, cc clientCase) (res *histResult) {
-	res = &histResult{classes: map[string]int{}}
+	res = &histResult{classes: map[string]int{}, soft: map[string]int{}}
 	res.bubble = run.Bubble(t, func(t *testing.T) {
 		bad := func(sig, f string, a ...any) {
 			res.problems = append(res.problems, problem{sig, fmt.Sprintf(f, a...)})
@@ -157,7 +157,9 @@ func runClientCase(t *testing.T, cc clientCase) (res *histResult) {
 		case cc.MustReject && err == nil:
 			bad("client:accepted-"+cc.Name, "client.Reserve accepted a reservation with a %s voucher/answer", cc.Name)
 		case cc.MustAccept && err != nil:
-			bad("client:rejected-valid", "client.Reserve rejected a valid reservation: %v", err)
+			// a refusal is never a violation; the vacuity guard (client_accepted_valid >= 1) makes the run inconclusive
+			res.soft["refused_though_admissible/client-reserve"]++
+			res.log = append(res.log, fmt.Sprintf("client.Reserve rejected a valid reservation: %v", err))
 		case cc.MustAccept:
 			v := rsvp.Voucher
 			if v == nil || v.Peer != peers[0].id || v.Relay != relayIdent.id || rsvp.LimitData != 1<<17 || rsvp.LimitDuration != 2*time.Minute {
@@ -192,6 +194,9 @@ func clientVouchers(t *testing.T, r *run.R) {
 		}
 		r.Eval(1)
 		for k, v := range res.classes {
+			r.Count(k, v)
+		}
+		for k, v := range res.soft {
 			r.Count(k, v)
 		}
 		if cc.MustReject {
